@@ -693,6 +693,194 @@ def exercise(ctx, case, reqs, impl, kept):
     kept.append(case)
 
 
+# --------------------------------------------------------------------------
+# HilbertClimateNetwork: phase mask, set_directed (model: Model/SimilarityHilbert.lean)
+# --------------------------------------------------------------------------
+
+def hilbert_state_of(net):
+    return state_of(net) + "|" + str(int(bool(net.directed)))
+
+
+def run_hilbert_case(ctx, spec, reqs, impl):
+    """one history on a HilbertClimateNetwork: correspondence with the Lean model `HNet` (fed the
+    coherence / phase matrices the object stores) and the statement itself as oracle:
+    linked <=> i != j, |coherence| (damped) > threshold and, when directed, phase shift > 0"""
+    import pyunicorn.climate as C
+    from pyunicorn.core import GeoGrid
+    obs = np.array(spec["observable"], dtype=float)
+    lat, lon = np.array(spec["lat"], dtype=float), np.array(spec["lon"], dtype=float)
+    grid = GeoGrid(np.arange(obs.shape[0], dtype=float), lat, lon, silence_level=3)
+    N = obs.shape[1]
+    M = N * (N - 1)
+    d0, nl0 = bool(spec["directed"]), bool(spec["non_local"])
+    init, ops = ops_of([spec["init"]])[0], ops_of_h(spec["ops"])
+
+    def fresh(directed, nl, **kw):
+        data = C.ClimateData(observable=obs.copy(), grid=grid, time_cycle=12, silence_level=3)
+        return C.HilbertClimateNetwork(data, directed=directed, non_local=nl, silence_level=3, **kw)
+
+    sig = {"class": "HilbertClimateNetwork"}
+    rep = dict(spec, kind="hilbert-history")
+    states, mats, toks = [], [], []
+    skip = False
+    with contextlib.redirect_stdout(io.StringIO()):
+        try:
+            net = fresh(d0, nl0, **({"threshold": init[1]} if init[0] == "T"
+                                    else {"link_density": init[1]}))
+        except Exception as e:  # noqa
+            if N >= 2:
+                ctx.fail(dict(sig, kind="raises", call="constructor:" + init[0],
+                              error=type(e).__name__),
+                         f"HilbertClimateNetwork constructor raised {type(e).__name__}", rep)
+            return
+        S = np.array(net.similarity_measure(), dtype=float)
+        P = np.array(net.phase_shift(), dtype=float)
+        if not (np.all(np.isfinite(S)) and np.all(np.isfinite(P))):
+            ctx.count("hilbert: coherence not finite (not judged)")
+            return
+        S0, P0 = S, P
+        d32, d64 = damp_of(net.grid)
+        want_dir = d0
+        prev = None
+        for n, op in enumerate([init] + ops):
+            if n:
+                try:
+                    if op[0] == "X":
+                        net.set_directed(op[1])
+                        want_dir = op[1]
+                        S = np.array(net.similarity_measure(), dtype=float)
+                        P = np.array(net.phase_shift(), dtype=float)
+                        mats += [S, P]
+                        toks.append(f"X:{int(op[1])}:{len(mats) - 2}:{len(mats) - 1}")
+                    else:
+                        apply_op(net, op)
+                        toks.append(enc_op(op))
+                except Exception as e:  # noqa
+                    ctx.fail(dict(sig, kind="raises", call="setter:" + op[0],
+                                  error=type(e).__name__),
+                             f"HilbertClimateNetwork setter {op_repr_h(op)} raised "
+                             f"{type(e).__name__}: {e}", dict(rep, call_index=n))
+                    return
+            A = np.asarray(net.adjacency).copy()
+            theta = fr(net.threshold())
+            nl = bool(net.non_local())
+            directed = bool(net.directed)
+            states.append(hilbert_state_of(net))
+            ctx.count("hilbert op=" + op[0] + (",directed" if directed else ",undirected")
+                      + (",non_local" if nl else ""))
+            if nl and near_tie(S, d32, theta):
+                skip = True
+
+            def fail(kind, what):
+                ctx.fail(dict(sig, kind=kind, directed=directed, non_local=nl), what,
+                         dict(rep, call_index=n, observed=states[-1]))
+            # the statement on the implementation
+            bad = None
+            for i in range(N):
+                for j in range(N):
+                    w = abs(float(S[i, j])) * (d64[i, j] if nl else 1.0)
+                    if nl and w != float(theta) and abs(w - float(theta)) <= NEAR * max(1.0, abs(float(theta))):
+                        continue
+                    exp = int(i != j and w > float(theta) and (not directed or P[i, j] > 0))
+                    if int(A[i, j]) != exp and bad is None:
+                        bad = (i, j, exp)
+            if bad:
+                fail("hilbert-link-rule", f"adjacency[{bad[0]},{bad[1]}] != {bad[2]} = (coherence"
+                     f"{'*w' if nl else ''} > threshold{' and phase > 0' if directed else ''})")
+            if directed != want_dir or bool(net.graph.is_directed()) != want_dir:
+                fail("hilbert-directed-flag", f"directed={directed}, graph.is_directed()="
+                     f"{net.graph.is_directed()} after requesting directed={want_dir}")
+            nz = int(np.count_nonzero(A))
+            if int(net.n_links) != (nz if directed else nz // 2):
+                fail("n_links", f"n_links={net.n_links} but adjacency has {nz} non-zeros "
+                     f"(directed={directed})")
+            if M and abs(float(net.link_density) - nz / M) > 1e-12:
+                fail("link_density", f"link_density={net.link_density} but adjacency gives {nz}/{M}")
+            if op[0] == "D" and nz > fr(op[1]) * M + Fraction(1, 10 ** 9):
+                fail("density-exceeds-request", f"requested link density {op[1]} but realised {nz}/{M}")
+            if not directed and np.array_equal(S, S.T) and not np.array_equal(A, A.T):
+                fail("symmetry", "symmetric coherence gave an asymmetric undirected network")
+            if prev is not None and op[0] in "TD" and prev[2] == (nl, directed):
+                lo, hi = ((prev, (theta, A)) if prev[0] <= theta else ((theta, A), prev))
+                if np.any(hi[1] > lo[1]):
+                    fail("monotonicity", "raising the threshold added links")
+            prev = (theta, A, (nl, directed))
+        # fresh twin with the reported settings
+        try:
+            tw = fresh(bool(net.directed), bool(net.non_local()), threshold=net.threshold())
+            if np.allclose(np.asarray(tw.similarity_measure()), S, rtol=1e-5, atol=1e-6) and \
+                    hilbert_state_of(tw) != hilbert_state_of(net):
+                ctx.fail(dict(sig, kind="stale-after-history"),
+                         "Hilbert network after the history differs from a fresh one with the "
+                         "reported threshold()/non_local()/directed",
+                         dict(rep, observed=hilbert_state_of(net), fresh=hilbert_state_of(tw)))
+        except Exception:  # noqa
+            pass
+    ctx.case(("hilbert", obs.tobytes().hex()[:64], d0, nl0, op_key(init), str(spec["ops"])),
+             any("1" in st.split("|")[1] for st in states), spec if N <= 4 else None)
+    if skip:
+        ctx.count("hilbert near-tie(non_local): oracle only")
+        return
+    reqs.append("hhist {} {} {} {} {} {} {} {} {}".format(
+        N, int(d0), int(nl0), enc_mat(S0), enc_mat(P0), enc_mat(d32), enc_op(init),
+        ",".join(toks) or "-", "@".join(enc_mat(m) for m in mats) or "-"))
+    impl.append(";".join(states))
+
+
+def ops_of_h(lst):
+    return [("X", bool(v)) if k == "X" else ops_of([[k, v]])[0] for k, v in lst]
+
+
+def op_repr_h(op):
+    return [op[0], op[1]]
+
+
+def hilbert_histories(ctx, rng, nprng, quick):
+    reqs, impl = [], []
+    for _ in range(40 if quick else 400):
+        N = rng.choice([2, 3, 3, 4, 5, 6])
+        g0 = gen_grid(rng, N)
+        obs = gen_data(rng, nprng, N)
+        # stored coherence of this data (float32), to place thresholds on / between its values
+        try:
+            with contextlib.redirect_stdout(io.StringIO()):
+                import pyunicorn.climate as C
+                from pyunicorn.core import GeoGrid
+                grid = GeoGrid(np.arange(obs.shape[0], dtype=float), g0.lat_sequence(),
+                               g0.lon_sequence(), silence_level=3)
+                probe = C.HilbertClimateNetwork(
+                    C.ClimateData(observable=obs.copy(), grid=grid, time_cycle=12, silence_level=3),
+                    threshold=0.5, directed=False, silence_level=3)
+            S0 = np.array(probe.similarity_measure(), dtype=float)
+        except Exception:  # noqa
+            ctx.count("hilbert: coherence not computable (skipped)")
+            continue
+        if not np.all(np.isfinite(S0)):
+            ctx.count("hilbert: coherence not finite (not judged)")
+            continue
+        init = ("T", f32(gen_threshold(rng, S0))) if rng.random() < 0.5 else \
+            ("D", gen_density(rng, N))
+        ops = []
+        for _k in range(rng.choice([1, 2, 4, 7])):
+            r = rng.random()
+            if r < 0.3:
+                ops.append(("X", rng.random() < 0.5))
+            elif r < 0.55:
+                ops.append(("T", f32(gen_threshold(rng, S0))))
+            elif r < 0.8:
+                ops.append(("D", gen_density(rng, N)))
+            else:
+                ops.append(("L", rng.random() < 0.6))
+        spec = {"observable": obs.tolist(), "lat": list(map(float, g0.lat_sequence())),
+                "lon": list(map(float, g0.lon_sequence())), "directed": rng.random() < 0.6,
+                "non_local": rng.random() < 0.35, "init": list(init),
+                "ops": [op_repr_h(o) for o in ops]}
+        run_hilbert_case(ctx, spec, reqs, impl)
+    ctx.correspond("Lean HNet model == HilbertClimateNetwork (directed / undirected, phase mask, "
+                   "set_directed histories)", reqs, impl)
+
+
+
 def scratch_cwd():
     d = tempfile.mkdtemp(prefix="C09-")
     atexit.register(shutil.rmtree, d, True)
@@ -703,6 +891,12 @@ def replay(ctx, rp):
     """./check C09 --replay FILE: re-run the recorded case (oracle + correspondence)"""
     r = rp["replay"]
     scratch_cwd()
+    if r.get("kind") == "hilbert-history":
+        reqs, impl = [], []
+        run_hilbert_case(ctx, r, reqs, impl)
+        if reqs:
+            ctx.correspond("replayed Hilbert history", reqs, impl)
+        return
     with contextlib.redirect_stdout(io.StringIO()):
         if "class" in r:
             case = make_subclass_case(None, None, r["class"], 0, fixed=r)
@@ -993,3 +1187,4 @@ def run(ctx):
     direct_calls(ctx, rng, quick)
     shared_arrays(ctx, rng, quick)
     regenerate_histories(ctx, rng, nprng, quick)
+    hilbert_histories(ctx, rng, nprng, quick)
